@@ -13,7 +13,7 @@ from yaml.events import (
 
 from yatiml.representers import (EnumRepresenter, Representer,
                                  PathRepresenter, UserStringRepresenter)
-from yatiml.util import is_string_like
+from yatiml.util import is_string_like, yaml12_float_regex
 
 
 logger = logging.getLogger(__name__)
@@ -161,6 +161,13 @@ class Dumper(yaml.SafeDumper):
             self.stream.write(self.best_line_break)
             self.stream.write(' ' * self._cur_indent)
 
+
+# The Loader reads floats according to YAML 1.2, but PyYAML's resolver, which
+# decides whether a string can be written without quotes, only knows YAML 1.1.
+# Make strings that a Loader would read as a float get quoted as well.
+Dumper.add_implicit_resolver(
+        'tag:yaml.org,2002:float', yaml12_float_regex,
+        list('-+0123456789.'))
 
 Dumper.add_representer(OrderedDict, Dumper.represent_ordereddict)
 Dumper.add_representer(PosixPath, PathRepresenter())
